@@ -198,12 +198,24 @@ def run(ctx):
     du = repo.cls('DUCCIO')
     call = du.methods['__call__']
     epoch, nep = ('param', call.params[2]), ('param', call.params[3])
-    rets = [p for p in returning(paths(repo, call, keep=KEEP19))
-            if any(e.kind == 'loopend' for e in p.events)]
+    def _main(p):
+        # the accumulation loop ranges over zip(targets, strengths); the lazy initialisation of
+        # the strengths may have a loop of its own
+        return p.retval is not None and mentions(
+            p.retval, lambda x: x[0] == 'elem' and is_call(x[1], 'builtins.zip'))
+    allp = returning(paths(repo, call, keep=KEEP19))
+    rets, seen_r = [], set()
+    for p in allp:
+        if any(e.kind == 'loopend' for e in p.events) and _main(p) and p.retval not in seen_r:
+            seen_r.add(p.retval)
+            rets.append(p)
     if not rets:
         raise AnalysisError('DUCCIO.__call__: loop path not found')
-    zero_rets = [p for p in returning(paths(repo, call, keep=KEEP19))
-                 if any(e.kind == 'loop0' for e in p.events)]
+    zero_rets, seen_z = [], set()
+    for p in allp:
+        if any(e.kind == 'loop0' for e in p.events) and not _main(p) and p.retval not in seen_z:
+            seen_z.add(p.retval)
+            zero_rets.append(p)
     for p in zero_rets:
         v = p.retval
         try:
@@ -353,16 +365,71 @@ def run(ctx):
                 found = True
                 v = e.data[2]
                 nograd = any(c[0] == 'with' and is_call(c[1], 'torch.no_grad') for c in e.ctx)
-                comps = [x for x in subterms(v) if x[0] == 'comp']
-                clamp = bool(comps) and is_call(comps[0][2][0], 'torch.maximum', 'torch.clamp',
-                                                'torch.relu') and \
-                    mentions(comps[0][2][0][2][0], lambda y: y in (('const', 0.0), ('const', 0)))
-                lazy = any(a == ('isnone', ('attr', SELF, 'final_strengths')) and pol
-                           for a, pol in p.assumptions) or True
-                ctx.ob('R19c', 'DUCCIO derived strengths', nograd and clamp,
-                       'clamped >= 0 and computed under no_grad' if nograd and clamp else
-                       f'derived strengths = {short(v, 160)} (no_grad: {nograd}, clamped at 0: '
-                       f'{clamp})', where(call, e.node))
+                elems = []
+                for x in subterms(v):
+                    if x[0] == 'comp':
+                        elems.append(x[2][0])
+                    elif x[0] in ('list', 'tuple') and x[1]:
+                        elems += [y for y in x[1]]
+
+                def judge(t, facts):
+                    """(non-negative, finite-problem or None) of a derived strength term under
+                    the comparison facts that dominate it"""
+                    if t[0] == 'const':
+                        return (isinstance(t[1], (int, float)) and t[1] >= 0), None
+                    if is_call(t, 'torch.tensor', 'torch.as_tensor', 'torch.zeros_like',
+                               'torch.zeros'):
+                        if callee(t).endswith(('zeros_like', 'zeros')):
+                            return True, None
+                        return judge(t[2][0], facts) if t[2] else (False, None)
+                    if t[0] == 'ifexp':
+                        a = judge(t[2], facts + [(t[1], True)])
+                        b = judge(t[3], facts + [(t[1], False)])
+                        return a[0] and b[0], a[1] or b[1]
+                    if is_call(t, 'torch.where') and len(t[2]) == 3:
+                        a = judge(t[2][1], facts + [(t[2][0], True)])
+                        b = judge(t[2][2], facts + [(t[2][0], False)])
+                        return a[0] and b[0], a[1] or b[1]
+                    if is_call(t, 'torch.maximum', 'torch.clamp', 'torch.relu', 'torch.clamp_min'):
+                        zero = any(a in (('const', 0.0), ('const', 0)) or
+                                   (is_call(a, 'torch.tensor') and a[2] and
+                                    a[2][0] in (('const', 0.0), ('const', 0)))
+                                   for a in list(t[2]) + [y for _, y in t[3]]) or \
+                            is_call(t, 'torch.relu')
+                        inner = [a for a in t[2] if not (a[0] == 'const' or is_call(a, 'torch.tensor'))]
+                        prob = None
+                        for a in inner:
+                            prob = prob or judge(a, facts)[1]
+                        return zero, prob
+                    if t[0] == 'bin' and t[1] == '/':
+                        den = t[3]
+                        pos = any((a == ('cmp', '>', den, ('const', 0)) and v_) or
+                                  (a == ('cmp', '<=', den, ('const', 0)) and not v_) or
+                                  (a == ('cmp', '<', ('const', 0), den) and v_)
+                                  for a, v_ in facts)
+                        if not pos:
+                            return False, den
+                        return True, None       # task_loss >= 0 over a positive excess
+                    return False, None
+                prior = [(e2.data[0], e2.data[1]) for e2 in p.events[:p.events.index(e)]
+                         if e2.kind == 'assume'] + list(p.assumptions)
+                nonneg, prob = True, None
+                for el in elems:
+                    a, b = judge(el, [])
+                    if not a or b is not None:
+                        # an element appended under a branch: the branch decisions of the path
+                        a, b = judge(el, prior)
+                    nonneg = nonneg and a
+                    prob = prob or b
+                ctx.ob('R19c', 'DUCCIO derived strengths', nograd and nonneg and prob is None,
+                       'non-negative, finite (every division by a cost excess is guarded by '
+                       'excess > 0) and computed under no_grad' if nograd and nonneg and
+                       prob is None else
+                       (f'the derived strength divides by {short(prob, 80)}, which is 0 for a cost '
+                        f'exactly at its target at the first call: the strength is inf and every '
+                        f'later call returns inf * max(0, 0) = nan' if prob is not None else
+                        f'derived strengths = {short(v, 160)} (no_grad: {nograd}, non-negative: '
+                        f'{nonneg})'), where(call, e.node))
     if not found:
         raise AnalysisError('DUCCIO.__call__: lazy initialisation of final_strengths not found')
     n_ob = len(ctx.obligations)
@@ -373,8 +440,6 @@ def run(ctx):
                          'path enumeration of sa/sym.py (loop bodies analysed generically)'],
     })
     ctx.assume('strength >= 0, epoch >= 0, n_epochs >= 1; cost values are real')
-    ctx.assume('not decided: finiteness when cost == target at the lazy initialisation '
-               '(division by zero)')
 
 
 MANIFEST = {
